@@ -627,10 +627,50 @@ def obj_fail(check, desc, cid, v, stage, what):
 def run(check):
     tier = check.tier
     check.rule = ('generated type universes (2-6 classes, inheritance, XmlAttribute / XmlData members, wrapped arrays, '
-                  'max_occurs>1 members, customised primitives, shared member names) with schema-conformant values; '
-                  'a case is distinct by (operation, universe, class or method, value or document, configuration)')
-    check.trusted = list(lib.COMMON_TRUSTED)
-    check.assumptions = []
+                  'max_occurs>1 members, customised integer types, 8 primitive kinds in the model and Decimal/Double/Uuid/'
+                  'customised Unicode in the oracle, member names shared between classes) and generated services (wrapped / '
+                  'bare / out_bare, 0-3 parameters, 0-3 return values, header classes in and out) with schema-conformant '
+                  'values incl. boundary values, plus a stream of structurally and lexically mutated documents; a case is '
+                  'distinct by (operation, protocol, validator, universe, class or method, value or document)')
+    check.trusted = list(lib.COMMON_TRUSTED) + [
+        'lxml/libxml2 (parsing, serialisation, namespace handling, XSD validation): the models work on parsed trees; the one '
+        'identification a serialise/parse cycle makes on Spyne-built trees (text "" -> no text) is the function [wire]',
+        'harness/c01x.py: the rendering of one description as Spyne classes, as Gallina terms and for the reference codec; '
+        'array member names / namespaces, customised type names and Attributes tables are COPIED from the classes that exist '
+        '(observed, not modelled: naming is C06/C07)',
+        'the oracle\'s independent decoders: harness/c01x.py ref_decode/ref_parse_leaf (XSD literals written from the XML Schema '
+        'datatypes spec), zeep 4.3 (request writer from the WSDL; its schema objects parse the response), the Spyne client',
+        'the equality notions of the property as coded in c01x.eq_value / norm_value (numeric value, instant plus UTC offset, '
+        'exact bytes, exact text; absent optional element = None, empty unwrapped sequence = None, empty byte string = None, '
+        'and the one XML forces in addition: an XmlData member holding the empty string = None)',
+    ]
+    check.assumptions = [
+        'leaf_sound L (C01_xmlx_rt, C01_call_fidelity): the primitive text codec is lossless on its declared domain; discharged for '
+        'Spyne\'s codecs by C01_leaf_sound from the C08 theorems (integer family, Unicode, Boolean, ByteArray/base64, Date, Time, '
+        'DateTime, Duration); any other primitive (Decimal, Double, Uuid, ...) enters the theorems as STok, a codec assumed to be '
+        'the identity on its lexical form, and is covered by the oracle only',
+        'validator=lxml: libxml2 accepts the request body the client writes (hypothesis of C01_call_fidelity; observed on every '
+        'conformant request of the run; the modelled subset of XSD validation is C06)',
+        'wf_universe: distinct flattened member names, XmlAttribute/XmlData wrap single-valued primitives, a class with XmlData has no '
+        'element members and no relatives (xs:simpleContent), header classes have distinct qualified names, method names are '
+        'distinct, the service does not live in the SOAP envelope namespace',
+        'not modelled (never generated by the correspondences): polymorphism / xsi:type (C16), Attributes.default, sub_name/sub_ns on '
+        'members, href/id multi-reference SOAP encoding, AnyXml/AnyDict/AnyHtml/File/Enum members, MTOM, out_stream serialisation, '
+        'faults as responses (C09), XML-level hostility (C10/C17)',
+        'zeep limitations that narrow what is compared through it: it reads an empty element as None whatever its type, ignores '
+        'xsi:nil on complex-typed elements, cannot write xsd.Nil items in sequences or absent simple content, cannot parse a reply '
+        'whose body element has a simple type (those replies are read by the reference decoder), prints years < 1000 unpadded',
+    ]
+    check.extra['violations_not_listed'] = 0
+    orig_fail = check.fail
+
+    def limited_fail(key, what, replay):
+        # an unrepaired tree produces hundreds of distinct failing shapes: list the first 40, count the rest
+        if key not in check.known_keys and len(check.violations) >= 40 and not any(k == key for k, _, _ in check.violations):
+            check.extra['violations_not_listed'] += 1
+            return True
+        return orig_fail(key, what, replay)
+    check.fail = limited_fail
     check.regen(['numtypes', 'xmlwire'])
     check.check_sources()
     check.prove('Props.C01', THEOREMS)
